@@ -332,9 +332,13 @@ Qed.
    maps back to the same object *)
 Theorem print_fixpoint_lemma : forall (c : pattern) (a : aexpr),
   wf c = true -> sem c = true -> visit repaired c = Ok a ->
-  exists c', unvisit a = Some c' /\ wf c' = true /\ yield c' = print a /\ visit repaired c' = Ok a.
+  exists c', unvisit a = Some c' /\ wf c' = true /\ sem c' = true /\ yield c' = print a /\
+             visit repaired c' = Ok a /\ meaning_cst c' = meaning_cst c.
 Proof.
-  intros c a Hw Hs Hv. rewrite (visit_sv c Hw Hs) in Hv. inversion Hv; subst a; clear Hv.
+  intros c a Hw Hs Hv.
+  assert (Mc : meaning_ast a = meaning_cst c).
+  { destruct (visit_preserves_lemma c Hw Hs) as [a0 [V0 M0]]. rewrite Hv in V0. inversion V0; subst a0. exact M0. }
+  rewrite (visit_sv c Hw Hs) in Hv. inversion Hv; subst a; clear Hv.
   destruct (visitor_range c Hw Hs) as [A V].
   destruct (unv_total (sv_fb c) V A) as [u U].
   pose proof (level_of_good _ u U A) as Lu.
@@ -343,9 +347,10 @@ Proof.
     destruct u as [[p|x|x]|o]; try discriminate L. exists o. reflexivity. }
   destruct Ob as [o Eo]. subst u.
   assert (Uv : unvisit (sv_fb c) = Some (lift_fb o)) by (unfold PatternSyntax.unvisit; rewrite U; reflexivity).
-  destruct (unvisit_facts _ _ Uv A) as [W [Y [_ [S Sv]]]].
-  exists (lift_fb o). split; [exact Uv|]. split; [exact W|]. split; [exact Y|].
-  rewrite (visit_sv _ W (S (vexpr_constructible _ V))), (Sv V). reflexivity.
+  destruct (unvisit_facts _ _ Uv A) as [W [Y [M [S Sv]]]].
+  pose proof (S (vexpr_constructible _ V)) as S'.
+  exists (lift_fb o). split; [exact Uv|]. split; [exact W|]. split; [exact S'|]. split; [exact Y|].
+  split; [rewrite (visit_sv _ W S'), (Sv V); reflexivity|]. rewrite M. exact Mc.
 Qed.
 
 (* objects assembled from the public classes, with a parenthetical node
@@ -354,11 +359,11 @@ Qed.
    same meaning *)
 Theorem programmatic_roundtrip_lemma : forall a : aexpr,
   aprint a = true -> well_grouped a = true -> obs_level a = true -> constructible a = true ->
-  exists c, unvisit a = Some c /\ wf c = true /\ yield c = print a /\
+  exists c, unvisit a = Some c /\ wf c = true /\ sem c = true /\ yield c = print a /\
   exists a', visit repaired c = Ok a' /\ meaning_ast a' = meaning_ast a.
 Proof.
   intros a A W O C. destruct (unvisit_defined a W O A) as [c U]. exists c.
   destruct (unvisit_facts a c U A) as [Wf [Y [M [S _]]]].
-  split; [exact U|]. split; [exact Wf|]. split; [exact Y|].
+  split; [exact U|]. split; [exact Wf|]. split; [exact (S C)|]. split; [exact Y|].
   destruct (visit_preserves_lemma c Wf (S C)) as [a' [V Ma]]. exists a'. split; [exact V|]. rewrite Ma. exact M.
 Qed.
